@@ -354,6 +354,11 @@ CLAIMED["C08"]["text"] = CLAIMED["C08"]["text"] + (" DELETION (Props/C08Delete, 
        "substitution, after the repair of D8d): whatever elements one match captured - segments, syllables, boundaries, in any number - every word the deletion returns still "
        "has a syllable (deleteEls_keeps, transform_deletion_keeps); before the repair the statement was false.")
 
+CLAIMED["C08"]["text"] = CLAIMED["C08"]["text"] + (" EVERY MATRIX RULE (Props/C08Matrix, through the generic scan theorem C14Supra.matrix_rule_gen): `X > [any matrix] / any "
+       "environment` - nodes, features, length, stress and tone in any combination - returns a word with exactly as many syllables as it was given and no empty syllable "
+       "(matrix_rule_keeps_syllables, matrix_rule_keeps_word_nonempty), because Syllable::apply_seg_mods at a position inside the syllable never returns an empty syllable "
+       "(applySegMods_nonempty: shortening a run stops at one copy).")
+
 _amend("C02", "text", "the word parser: Word::new returns a word or a WordSyntaxError for EVERY text",
        "at the seam to the interpreter, every rule Parser::parse returns has non-empty sides made of non-empty terms (Props/C02Terms.parseLine_rule_ok, after the repair of "
        "D24: fix a21d332), so the `input[0]` / `output[0]` of Rule::split_into_subrules cannot fail on a parsed rule; "
